@@ -62,7 +62,7 @@ R.contract(M + "_gap_encode",
                     "implies(ord(pc) <= 255, DecRow(prev, result, enc) == ord(pc))"])
 
 R.contract(M + "juniper_nonrandom_encrypt",
-           types={"plain": STR, "salt": Opt(STR)}, returns=STR,
+           types={"plain": STR, "salt": Opt(STR)}, returns=STR, pure=True,
            # any salt value (None, empty, any first character) and any plaintext over code points 0..255
            ensures=["result[:3] == '$9$'", "len(result) >= 4 + 2 * len(plain)"],
            loops={0: LoopContract(["p"], index="_i0", invariant=[
